@@ -29,7 +29,7 @@ func (r *rng) next() uint64 {
 	z = (z ^ (z >> 27)) * 0x94D049BB133111EB
 	return z ^ (z >> 31)
 }
-func (r *rng) intn(n int) int { return int(r.next() % uint64(n)) }
+func (r *rng) intn(n int) int        { return int(r.next() % uint64(n)) }
 func (r *rng) pick(xs []int64) int64 { return xs[r.intn(len(xs))] }
 
 // ---------------------------------------------------------------- fake clock
